@@ -21,12 +21,23 @@ try:
         r = subprocess.run(['go', 'test', '-count=1', './...'], cwd=d, env=env, capture_output=True, text=True)
         print("TESTS", "pass" if r.returncode == 0 else "FAIL\n" + r.stdout[-1500:])
     env['VERIF_REPO'] = d
-    ev = tempfile.mkdtemp(prefix='ev-', dir='/tmp')
-    r = subprocess.run(['/verif/bin/crverif', '-property', prop, '-evidence', ev], env=env, capture_output=True, text=True)
-    out = r.stdout + r.stderr
-    lines = [l[:400] for l in out.splitlines()]
-    print("exit", r.returncode)
-    print("\n".join(lines[:14]))
-    shutil.rmtree(ev, ignore_errors=True)
+    props = [prop]
+    if prop == 'ALL':
+        props = subprocess.run(['/verif/bin/crverif', '-list'], capture_output=True, text=True).stdout.split()
+    for pr in props:
+        ev = tempfile.mkdtemp(prefix='ev-', dir='/tmp')
+        r = subprocess.run(['/verif/bin/crverif', '-property', pr, '-evidence', ev], env=env, capture_output=True, text=True)
+        out = r.stdout + r.stderr
+        lines = [l[:400] for l in out.splitlines() if 'KNOWN' not in l]
+        if prop == 'ALL':
+            if r.returncode != 0:
+                print(pr, "exit", r.returncode)
+                print("\n".join(lines[1:5]))
+        else:
+            print("exit", r.returncode)
+            print("\n".join(lines[:14]))
+        shutil.rmtree(ev, ignore_errors=True)
+    if prop == 'ALL':
+        print("ALL done")
 finally:
     shutil.rmtree(d, ignore_errors=True)
